@@ -122,6 +122,36 @@ def working_positions(ctx, w):
     return tuple(good)
 
 
+def check_grpc_calls(ctx, w, kind, sess, calls, payload, codec):
+    """oracle for one gRPC session (sync or asyncio client): every position reachable, wire names original"""
+    if "calls" not in sess:
+        ctx.fail("safe-positions:session", f"word {w!r}: {kind} gRPC session failed: {str(sess)[-300:]}", payload)
+        return False
+    for c, r_ in zip(calls, sess["calls"]):
+        ctx.count("position", c["tag"] + ":" + kind)
+        pl = {**payload, "position": c["tag"], "client": kind}
+        if "ok" not in r_:
+            ctx.fail(f"position:{c['tag']}", f"word {w!r} as {c['tag']} ({kind}): call raised {r_.get('raised')}: {r_.get('msg', '')[:160]}", pl)
+            continue
+        srv = r_["server"]
+        if len(srv) != 1:
+            ctx.fail(f"position:{c['tag']}", f"word {w!r} as {c['tag']} ({kind}): {len(srv)} server calls", pl)
+            continue
+        full, want = c["expect"]
+        got = codec.decode(full, srv[0]["requests"][0])
+        if got != codec.normal(full, want):
+            ctx.fail(f"wire:{c['tag']}", f"word {w!r} as {c['tag']} ({kind}): server decoded {got}, caller meant {want}", pl)
+        md = dict(srv[0]["metadata"])
+        if c["tag"] == "top-level field + http path variable":
+            if md.get("x-goog-request-params") != f"{w}=things/t1":
+                ctx.fail("wire:routing-key", f"word {w!r} ({kind}): implicit routing header {md.get('x-goog-request-params')!r}, expected key {w!r}", pl)
+        if c.get("header") and md.get("x-goog-request-params") != c["header"]:
+            ctx.fail("wire:routing-key", f"word {w!r} ({kind}): explicit routing header {md.get('x-goog-request-params')!r}, expected {c['header']!r}", pl)
+        if c.get("path") and srv[0]["path"] != c["path"]:
+            ctx.fail("wire:rpc-path", f"word {w!r} ({kind}): rpc path {srv[0]['path']!r}, expected {c['path']!r}", pl)
+    return True
+
+
 def check_safe(ctx, w, quick=False):
     from gapic.utils import to_snake_case
     include = working_positions(ctx, w)
@@ -179,6 +209,7 @@ def check_safe(ctx, w, quick=False):
             {"op": "import_all", "package": loc["package"]},
             {"op": "grpc_session", "client": loc["client"], "transport": loc["grpc"], "async": False, "calls": clean(calls)},
             {"op": "rest_session", "client": loc["client"], "transport": loc["rest"], "calls": clean(rest_calls)},
+            {"op": "grpc_session", "client": loc["async_client"], "transport": loc["grpc_asyncio"], "async": True, "calls": clean(calls)},
         ], timeout=300)
     finally:
         genrun.cleanup(root)
@@ -192,32 +223,9 @@ def check_safe(ctx, w, quick=False):
         want_mod = f"{loc['package']}.types.{w + '_' if w in invalid else w}"
         if want_mod not in imp["modules"]:
             ctx.fail("file-name", f"proto file {w}.proto: module {want_mod} not importable; modules: {[m for m in imp['modules'] if '.types.' in m]}", payload)
-    sess = out[1]
-    if "calls" not in sess:
-        ctx.fail("safe-positions:session", f"word {w!r}: gRPC session failed: {str(sess)[-300:]}", payload)
-        return
-    for c, r_ in zip(calls, sess["calls"]):
-        ctx.count("position", c["tag"])
-        pl = {**payload, "position": c["tag"]}
-        if "ok" not in r_:
-            ctx.fail(f"position:{c['tag']}", f"word {w!r} as {c['tag']}: call raised {r_.get('raised')}: {r_.get('msg', '')[:160]}", pl)
-            continue
-        srv = r_["server"]
-        if len(srv) != 1:
-            ctx.fail(f"position:{c['tag']}", f"word {w!r} as {c['tag']}: {len(srv)} server calls", pl)
-            continue
-        full, want = c["expect"]
-        got = codec.decode(full, srv[0]["requests"][0])
-        if got != codec.normal(full, want):
-            ctx.fail(f"wire:{c['tag']}", f"word {w!r} as {c['tag']}: server decoded {got}, caller meant {want}", pl)
-        md = dict(srv[0]["metadata"])
-        if c["tag"] == "top-level field + http path variable":
-            if md.get("x-goog-request-params") != f"{w}=things/t1":
-                ctx.fail("wire:routing-key", f"word {w!r}: implicit routing header {md.get('x-goog-request-params')!r}, expected key {w!r}", pl)
-        if c.get("header") and md.get("x-goog-request-params") != c["header"]:
-            ctx.fail("wire:routing-key", f"word {w!r}: explicit routing header {md.get('x-goog-request-params')!r}, expected {c['header']!r}", pl)
-        if c.get("path") and srv[0]["path"] != c["path"]:
-            ctx.fail("wire:rpc-path", f"word {w!r}: rpc path {srv[0]['path']!r}, expected {c['path']!r}", pl)
+    for kind, sess in (("sync", out[1]), ("asyncio", out[3])):
+        if not check_grpc_calls(ctx, w, kind, sess, calls, payload, codec):
+            return
     rs = out[2]
     if "calls" not in rs:
         ctx.fail("safe-positions:session", f"word {w!r}: REST session failed: {str(rs)[-300:]}", payload)
